@@ -625,8 +625,9 @@ def gen_case(rng, tier):
     else:
         kind = "undisc-sweep"                 # one planner object: A, perturbed B, (C,) A again
         m, more = gen_sweep(rng, tier)
-    if kind == "undisc-farms" and os.environ.get("C16_GAIN_NEAR_TIE", "0") == "1" and rng.random() < .4:
-        # opt-in (reported to the coordinator): gains inside np.isclose's band with exactly tied biases
+    if kind == "undisc-farms" and os.environ.get("C16_GAIN_NEAR_TIE", "1") != "0" and rng.random() < .4:
+        # gains inside np.isclose's band with exactly tied biases (recorded known finding, class rule GAIN_TIE_RULE;
+        # C16_GAIN_NEAR_TIE=0 switches the sub-class off)
         kind = "undisc-gain-near-tie"
         m = gen_gain_near_tie(rng)
     nd = False
